@@ -695,6 +695,84 @@ def gen_pow10(lines):
 GENERATORS.append(("Pow10", gen_pow10))
 
 
+# ------------------------------------------------------------------ value/ser.rs + ser.rs key serializers (C15)
+def gen_tovalue(lines):
+    """C15: the dispatch tables of the two `MapKeySerializer`s (for every `serde::Serializer` method: does
+    it reject with `key_must_be_a_string()`, forward to `self`, or accept), the two bool key literals of
+    `value::ser::MapKeySerializer::serialize_bool`, the error codes the three error helpers of
+    `value/ser.rs` raise and the shape of the 128-bit branches of `value::Serializer`"""
+    tv = strip_rust_comments(src("value/ser.rs"))
+    tt = strip_rust_comments(src("ser.rs"))
+
+    def table(text, header, key):
+        block = fn_body(text, header)
+        if block is None:
+            miss(key, "impl block not found"); return []
+        rows = []
+        for m in re.finditer(r"fn\s+(serialize_\w+|collect_str)\s*(?:<[^>]*>)?\s*\(", block):
+            body = fn_body(block[m.start():], r"fn\s+\w+[^{]*\{")
+            if body is None:
+                miss(key + "." + m.group(1), "no body"); continue
+            inner = body.strip()[1:-1].strip()
+            if re.fullmatch(r"Err\(key_must_be_a_string\(\)\)", inner): cls = "reject"
+            elif re.fullmatch(r"value\.serialize\(self\)", inner): cls = "forward"
+            elif "float_key_must_be_finite()" in inner: cls = "finite"
+            else: cls = "accept"
+            rows.append((m.group(1), cls))
+        return rows
+
+    rows_v = table(tv, r"impl\s+serde::Serializer\s+for\s+MapKeySerializer\s*\{", "tovalue.keys.value")
+    rows_t = table(tt, r"impl<'a,\s*W,\s*F>\s*ser::Serializer\s+for\s+MapKeySerializer<'a,\s*W,\s*F>\s*where[^{]*\{", "tovalue.keys.text")
+    METHODS = ["serialize_bool", "serialize_i8", "serialize_i16", "serialize_i32", "serialize_i64", "serialize_i128",
+               "serialize_u8", "serialize_u16", "serialize_u32", "serialize_u64", "serialize_u128", "serialize_f32",
+               "serialize_f64", "serialize_char", "serialize_str", "serialize_bytes", "serialize_none", "serialize_some",
+               "serialize_unit", "serialize_unit_struct", "serialize_unit_variant", "serialize_newtype_struct",
+               "serialize_newtype_variant", "serialize_seq", "serialize_tuple", "serialize_tuple_struct",
+               "serialize_tuple_variant", "serialize_map", "serialize_struct", "serialize_struct_variant", "collect_str"]
+    lines.append("/-- the methods of `serde::Serializer` -/")
+    lines.append("inductive KeyMethod where\n" + "\n".join("  | %s" % m for m in METHODS) + "\nderiving DecidableEq, Repr")
+    lines.append("/-- what a `MapKeySerializer` method does: `Err(key_must_be_a_string())`, `value.serialize(self)`, a finiteness")
+    lines.append("    test raising `float_key_must_be_finite()`, or anything else (the key is accepted and rendered) -/")
+    lines.append("inductive KeyClass where\n  | reject | forward | finite | accept\nderiving DecidableEq, Repr")
+    for name, rows, doc, key in (("keyClassValue", rows_v, "`impl serde::Serializer for MapKeySerializer` of `src/value/ser.rs`", "tovalue.keys.value"),
+                                 ("keyClassText", rows_t, "`impl ser::Serializer for MapKeySerializer<W, F>` of `src/ser.rs`", "tovalue.keys.text")):
+        d = dict(rows)
+        for m in METHODS:
+            if m not in d: miss(key + "." + m, "method not defined in the impl block (serde default would apply)")
+        for m in d:
+            if m not in METHODS: miss(key + "." + m, "unknown Serializer method")
+        lines.append("/-- %s, method by method -/" % doc)
+        lines.append("def %s : KeyMethod → KeyClass\n" % name + "\n".join("  | .%s => .%s" % (m, d.get(m, "reject")) for m in METHODS))
+    # bool key literals of the value-side key serializer
+    block = fn_body(tv, r"impl\s+serde::Serializer\s+for\s+MapKeySerializer\s*\{") or ""
+    body = fn_body(block, r"fn\s+serialize_bool\s*\([^{]*\{") or ""
+    m = re.search(r'if\s+value\s*\{\s*"((?:[^"\\]|\\.)*)"\s*\}\s*else\s*\{\s*"((?:[^"\\]|\\.)*)"\s*\}', body)
+    if not m: miss("tovalue.keys.bool", '`if value { "true" } else { "false" }` not found')
+    lines.append("/-- `value::ser::MapKeySerializer::serialize_bool(true)` -/")
+    lines.append("def tvKeyTrue : List UInt8 := %s" % lean_bytes(rust_str_bytes(m.group(1)) if m else b""))
+    lines.append("/-- `value::ser::MapKeySerializer::serialize_bool(false)` -/")
+    lines.append("def tvKeyFalse : List UInt8 := %s" % lean_bytes(rust_str_bytes(m.group(2)) if m else b""))
+    # error helpers
+    for fn, name in (("key_must_be_a_string", "tvKeyErr"), ("float_key_must_be_finite", "tvFloatKeyErr")):
+        b = fn_body(tv, r"fn\s+%s\s*\(\)\s*->\s*Error\s*\{" % fn) or ""
+        m = re.search(r"Error::syntax\(ErrorCode::(\w+),\s*0,\s*0\)", b)
+        if not m: miss("tovalue.err." + fn, "`Error::syntax(ErrorCode::…, 0, 0)` not found")
+        lines.append("/-- the `ErrorCode` raised by `%s()` in `src/value/ser.rs` -/" % fn)
+        lines.append('def %s : String := "%s"' % (name, m.group(1) if m else ""))
+    # 128-bit branches of value::Serializer (default build): the order of the try_from tests and the error
+    ser = fn_body(tv, r"impl\s+serde::Serializer\s+for\s+Serializer\s*\{") or ""
+    for fn, name, want in (("serialize_i128", "tvI128Tests", ["u64", "i64"]), ("serialize_u128", "tvU128Tests", ["u64"])):
+        b = fn_body(ser, r"fn\s+%s\s*\([^{]*\{" % fn) or ""
+        tests = re.findall(r"if\s+let\s+Ok\(value\)\s*=\s*(\w+)::try_from\(value\)", b)
+        err = re.search(r"else\s*\{\s*Err\(Error::syntax\(ErrorCode::(\w+),\s*0,\s*0\)\)\s*\}", b)
+        if tests != want or not err: miss("tovalue.int128." + fn, "expected try_from tests %r followed by an Err" % (want,))
+        lines.append("/-- `value::Serializer::%s` without arbitrary_precision: the `try_from` targets tried in order, and the error -/" % fn)
+        lines.append("def %s : List String × String := ([%s], \"%s\")" % (name, ", ".join('"%s"' % x for x in tests), err.group(1) if err else ""))
+
+
+GENERATORS.append(("ToValue", gen_tovalue))
+
+
 def main():
     os.makedirs(OUT, exist_ok=True)
     for name, fn in GENERATORS:
